@@ -155,24 +155,33 @@ Definition tag_valid (o : fopts) : bool :=
   && (if negb (is_nil_b (o_param o)) then negb (o_prefix o) else true)
   && (if o_inline o then negb (o_prefix o) && (0 <? o_len o) else true).
 
-(* normalize: the loop state is (prefix, kept fields (in order), params seen, NumReqValues, groupCounted) *)
-Fixpoint normalize_loop (all : list finfo) (fs : list finfo)
-         (pre : option finfo) (kept : list finfo) (params : list bytes) (nreq : Z) (gc : bool) : res tinfo :=
+(* NumReqValues, counted over the fields that are kept: one per required plain (non-inline) field and one
+   per group run that has a required member *)
+Fixpoint count_req (fs : list finfo) (gc : bool) : Z :=
   match fs with
-  | [] => Ok {| ti_prefix := pre; ti_fields := kept; ti_numreq := nreq |}
+  | [] => 0
+  | f :: r =>
+    let o := fi_opts f in
+    (if negb (o_group o) && negb (o_omit o) && negb (o_inline o) then 1 else 0)
+    + (if negb (o_group o) then count_req r false
+       else if negb (o_omit o) && negb gc then 1 + count_req r true else count_req r gc)
+  end.
+
+(* normalize: the loop state is (prefix, kept fields (in order), params seen) *)
+Fixpoint normalize_loop (all : list finfo) (fs : list finfo)
+         (pre : option finfo) (kept : list finfo) (params : list bytes) : res tinfo :=
+  match fs with
+  | [] => Ok {| ti_prefix := pre; ti_fields := kept; ti_numreq := count_req kept false |}
   | f :: r =>
     let o := fi_opts f in
     if negb (tag_valid o) then Err (EInvalidTag (fi_name f))
-    else if o_prefix o then normalize_loop all r (Some f) kept params nreq gc
+    else if o_prefix o then normalize_loop all r (Some f) kept params
     else
-      let nreq1 := if negb (o_group o) && negb (o_omit o) && negb (o_inline o) then nreq + 1 else nreq in
-      let '(nreq2, gc2) := if negb (o_group o) then (nreq1, false)
-                           else if negb (o_omit o) && negb gc then (nreq1 + 1, true) else (nreq1, gc) in
       match o_param o with
-      | [] => normalize_loop all r pre (kept ++ [f]) params nreq2 gc2
-      | p => if existsb (bytes_eqb p) params then normalize_loop all r pre kept params nreq2 gc2
+      | [] => normalize_loop all r pre (kept ++ [f]) params
+      | p => if existsb (bytes_eqb p) params then normalize_loop all r pre kept params
              else match field_of p all with
-                  | Ok fi => normalize_loop all r pre (kept ++ [fi]) (p :: params) nreq2 gc2
+                  | Ok fi => normalize_loop all r pre (kept ++ [fi]) (p :: params)
                   | Err e => Err e
                   | Panic => Panic
                   end
@@ -181,4 +190,4 @@ Fixpoint normalize_loop (all : list finfo) (fs : list finfo)
 
 Definition type_info (st : list sfield) : res tinfo :=
   let raw := raw_fields st O in
-  normalize_loop raw raw None [] [] 0 false.
+  normalize_loop raw raw None [] [].
